@@ -5,6 +5,9 @@
 -/
 import UnicLocale.Model.Ops
 import UnicLocale.Model.Cmp
+import UnicLocale.Model.Macros
+import UnicLocale.Model.Serde
+import Lean.Data.Json.Parser
 import UnicLocale.Spec.Grammar
 import UnicLocale.Spec.Locale
 import UnicLocale.Spec.Likely
@@ -266,6 +269,67 @@ def ansHist (a : List String) : String :=
       | .ok x => histLoop x s!"ok {renderLoc x}" ops
       | .err e => errCode e
       | .panic => "panic"
+
+
+/-! ### serde (C19): JSON text is decoded with `Lean.Json` (contract of serde_json), the model decides -/
+
+def bytesToString (b : Bytes) : Option String :=
+  let ba := ByteArray.mk (b.map (fun n => UInt8.ofNat n)).toArray
+  String.fromUTF8? ba
+
+def wireOfJson (text : Bytes) : Wire :=
+  match bytesToString text with
+  | none => .invalid
+  | some s =>
+    match Lean.Json.parse s with
+    | .ok (.str v) => .str (v.toUTF8.toList.map (·.toNat))
+    | .ok _ => .other
+    | .error _ => .invalid
+
+def ansDeser (w : Wire) : String :=
+  match Serde.deserialize w with
+  | .ok x => s!"ok {renderLi x}"
+  | .err _ => "err"
+  | .panic => "panic"
+
+def ansSerFrom (text : Bytes) : String :=
+  let w := wireOfJson text
+  let r := ansDeser w
+  match w with
+  | .invalid => s!"{r} | badjson"
+  | _ => s!"{r} | {r}"
+
+def ansSerTo (v : Bytes) : String :=
+  match LangId.fromBytes v with
+  | .ok x =>
+    match Serde.serialize x with
+    | .str s =>
+      let rt := b01 (Serde.deserialize (.str s) == .ok x)
+      s!"ok {esc ([34] ++ s ++ [34])} rt={rt} val={esc s} rt2={rt}"
+    | _ => "err"
+  | .err e => errCode e
+  | .panic => "panic"
+
+/-! ### macros (C16): predicted outcome of one invocation -/
+
+def macOut {α} (render : α → String) : MacroOut α → String
+  | .value a => s!"value {render a}"
+  | .compileError => "cerr"
+  | .runtimePanic => "rpanic"
+
+def ansMac (kind : String) (lits : List Bytes) : String :=
+  let liR (x : LangId) : String := s!"{renderLi x};str={esc x.display}"
+  match kind, lits with
+  | "lang", [l] => macOut (fun x => esc (Language.asStr x)) (Macros.lang l)
+  | "script", [l] => macOut esc (Macros.script l)
+  | "region", [l] => macOut esc (Macros.region l)
+  | "variant", [l] => macOut esc (Macros.variant l)
+  | "langid", [l] => macOut liR (Macros.langid l)
+  | "locale", [l] => macOut renderLoc (Macros.locale l)
+  | "langids", ls => macOut (fun xs => " , ".intercalate (xs.map liR)) (Macros.list Macros.langid ls)
+  | "langid_slice", ls => macOut (fun xs => " , ".intercalate (xs.map liR)) (Macros.list Macros.langid ls)
+  | "locales", ls => macOut (fun xs => " , ".intercalate (xs.map renderLoc)) (Macros.list Macros.locale ls)
+  | _, _ => "bad"
 
 def flagOf (s : String) : Bool := s == "1"
 
@@ -539,6 +603,18 @@ def answer (line : String) : String :=
           | _ => "bad"
       | _ => "bad"
     | "hist" => ansHist a
+    | "serto" => match arg 0 with
+      | some v => ansSerTo v
+      | none => "bad"
+    | "serfrom" => match arg 0 with
+      | some v => ansSerFrom v
+      | none => "bad"
+    | "mac" => match a with
+      | [kind] => ansMac kind []
+      | [kind, ls] => match unhexList ls with
+        | some l => ansMac kind l
+        | none => "bad"
+      | _ => "bad"
     | _ => "na"
 
 end UL.Driver
